@@ -405,10 +405,15 @@ func (s *MemoryStore) RevokeRefreshToken(ctx context.Context, requestID string) 
 func (s *MemoryStore) RevokeAccessToken(ctx context.Context, requestID string) error {
 	s.accessTokenRequestIDsMutex.RLock()
 	defer s.accessTokenRequestIDsMutex.RUnlock()
+	s.accessTokensMutex.Lock()
+	defer s.accessTokensMutex.Unlock()
 
-	if signature, exists := s.AccessTokenRequestIDs[requestID]; exists {
-		if err := s.DeleteAccessTokenSession(ctx, signature); err != nil {
-			return err
+	// A request ID can own more than one access token (the OpenID Connect hybrid flow issues one at the
+	// authorization endpoint and another one when the code is redeemed), so revoke all of them and not
+	// only the one that was stored last.
+	for signature, req := range s.AccessTokens {
+		if req.GetID() == requestID {
+			delete(s.AccessTokens, signature)
 		}
 	}
 	return nil
